@@ -7,6 +7,8 @@ Characterisation of the generated definitions: `ZeroDivisionError` iff the divis
 undefined C operation is executed.  The 32-bit section is the 64-bit one with the literals replaced.
 -/
 set_option maxRecDepth 4000
+set_option linter.unusedSimpArgs false
+set_option linter.unusedVariables false
 namespace CFastProofs
 open CFast Tagged CSem
 
